@@ -6,6 +6,7 @@
 // @h c09_format_int_pairs tier=both bounded=enumerated-literal-format-pairs
 // @h c09_format_unknown_pairs tier=both bounded=enumerated-literal-format-pairs
 // @h c09_choose_value tier=both
+// @h c09_array_bounds tier=both
 // @canary canary_c09_merge
 //
 // C09 -- allOf is intersection: the leaf merges.
@@ -26,6 +27,8 @@
 //   P6  Err ==> the two formats have no common instance (integer formats overlap pairwise)
 //
 //   choose_value: Some over None, `prefer` of both when both are Some.
+//   merge_so_array (no item schemas): P8 length bounds are intersected, unsatisfiable
+//       exactly when minItems > maxItems.
 
 use super::*;
 
@@ -317,6 +320,76 @@ fn c09_choose_value() {
         "[C09/P7] uniqueItems of the merge is not the disjunction",
     );
     kani::cover!(a.is_some() && b.is_some(), "[must] both bounds present");
+}
+
+/// merge_so_array with no item schemas on either side: the merged length constraints are the
+/// intersection (P8: minItems = the larger, maxItems = the smaller, uniqueItems = either),
+/// and the merge is unsatisfiable exactly when minItems > maxItems.
+#[kani::proof]
+#[kani::unwind(10)]
+fn c09_array_bounds() {
+    let a = ArrayValidation {
+        items: None,
+        additional_items: None,
+        max_items: kani::any(),
+        min_items: kani::any(),
+        unique_items: kani::any(),
+        contains: None,
+    };
+    let b = ArrayValidation {
+        items: None,
+        additional_items: None,
+        max_items: kani::any(),
+        min_items: kani::any(),
+        unique_items: kani::any(),
+        contains: None,
+    };
+    let defs: BTreeMap<RefKey, Schema> = BTreeMap::new();
+    let r = merge_so_array(Some(&a), Some(&b), &defs);
+    let want_min = match (a.min_items, b.min_items) {
+        (None, x) | (x, None) => x,
+        (Some(x), Some(y)) => Some(if x > y { x } else { y }),
+    };
+    let want_max = match (a.max_items, b.max_items) {
+        (None, x) | (x, None) => x,
+        (Some(x), Some(y)) => Some(if x < y { x } else { y }),
+    };
+    let unsat = match (want_min, want_max) {
+        (Some(lo), Some(hi)) => lo > hi,
+        _ => false,
+    };
+    match &r {
+        Err(()) => kani::assert(
+            unsat,
+            "[C09/P8] array length constraints with a common length merged to `never`",
+        ),
+        Ok(None) => kani::assert(false, "[C09/P8] merged array validation vanished"),
+        Ok(Some(m)) => {
+            kani::assert(
+                !unsat,
+                "[C09/P8] contradictory array length constraints (minItems > maxItems) merged to a permissive type",
+            );
+            kani::assert(
+                m.min_items == want_min && m.max_items == want_max,
+                "[C09/P8] merged array length bounds are not the intersection",
+            );
+            kani::assert(
+                m.unique_items.unwrap_or(false)
+                    == (a.unique_items.unwrap_or(false) || b.unique_items.unwrap_or(false)),
+                "[C09/P8] merged uniqueItems is not the disjunction",
+            );
+            kani::assert(
+                m.items.is_none() && m.contains.is_none(),
+                "[C09/P8] merge invented an item schema",
+            );
+        }
+    }
+    kani::cover!(r.is_err(), "[must] unsatisfiable lengths reachable");
+    kani::cover!(r.is_ok(), "[must] satisfiable lengths reachable");
+    core::mem::forget(r);
+    core::mem::forget(a);
+    core::mem::forget(b);
+    core::mem::forget(defs);
 }
 
 #[kani::proof]
